@@ -44,7 +44,7 @@ func checkC15(r *Run) {
 				// the only string parameters of the os/syscall functions used here are paths; user.Lookup etc. are not in hostPkgs
 				hasStr = true
 				nArgs++
-				cl := pt.classAt(fn, a, in, nil, 0)
+				cl := pt.classAt(fn, a, in, pt.paramEnv(fn, 0), 0)
 				key := fmt.Sprintf("%s: %s arg %d is inside the export root", fnName(fn), fnName(g), i)
 				r.Check(cl == pHC, "confinement", key, in.Pos(),
 					fmt.Sprintf("the path handed to %s is %s (%s): a hostile name can reach a host object outside the exported directory", fnName(g), cl, valStr(a)))
@@ -74,7 +74,7 @@ func checkC15(r *Run) {
 			case isUfsType(fa.X.Type(), "FileRef") && fieldName(fa.X.Type(), fa.Field) == "Path":
 				nStores++
 				// do not use the invariant itself for the stored value: evaluate it at the store
-				cl := pt.classAt(fn, st.Val, st, nil, 0)
+				cl := pt.classAt(fn, st.Val, st, pt.paramEnv(fn, 0), 0)
 				r.Check(cl == pRC, "path-invariant", fnName(fn)+": FileRef.Path is assigned a validated internal path", st.Pos(),
 					"FileRef.Path is set to a value that is "+cl.String()+" ("+valStr(st.Val)+"): later host paths built from it can leave the export root")
 			case isUfsType(fa.X.Type(), "fServer") && fieldName(fa.X.Type(), fa.Field) == "Base":
